@@ -16,15 +16,19 @@ MANIFEST = dict(
          "Hogg (1999): 1/E(z) for flat and curved models, the fixed-order Gauss-Legendre integral with the affine map (5 nodes; 10 for the "
          "volume), D_C = D_H*int, D_M with sinh/sin arms and sqrt|Omega_k|/D_H, D_A = D_M/(1+z), D_L = (1+z) D_M, dV, V with 4 pi, inverse "
          "critical density (zero for z_s <= z_l) and its constant 4 pi G/c^2 against CODATA-derived value, c in C and Python equal; node / "
-         "weight arrays are written only by the rule generator on [-1,1]; 26 C wrappers (helpers of the translation unit inlined, then lowered "
+         "weight arrays are written only by the rule generator on [-1,1]; switch statements are lowered as if-chains, loops that step "
+         "pointers as the same loop over an index, a struct member that caches a function of the constructor's parameters (and that no "
+         "other function writes) is read as that function; 26 C wrappers (helpers of the translation unit inlined, then lowered "
          "as a whole): parse format, output sized from the array argument, stored term = Q(arg1[i]|arg1, arg2[i]|arg2) (after one level of "
          "inlining), complete method table; five Python dispatchers executed on abstract scalar/array arguments (private helpers followed): "
-         "scalar pattern -> suffix -> converted argument, differing lengths raise before the two-array call; exhaustive abstract "
+         "scalar pattern -> suffix -> converted argument (a fast path guarded by tests that establish float64 / C-contiguous / >= 1-d counts "
+         "as the conversion; dispatch tables are followed), differing lengths or shapes raise before the two-array call; exhaustive abstract "
          "evaluation of the parameter normaliser over (omega_k in {None,0,nonzero}) x (flat in {T,F}); h overrides H0, D_H = c/H0; copy "
          "and pickle argument order; object state by abstract execution of the constructor, accessors, copy(), __copy__, __deepcopy__ and "
          "__reduce__ on symbolic arguments with the attributes of self tracked: D_H = c/(100 h | H0), H0() * D_H = c, normalised parameters "
-         "reach the extension object, every duplicate is built from the same extension arguments and reports the same H0(); distance "
-         "modulus formula.",
+         "reach the extension object, every duplicate is built from the same extension arguments and reports the same H0() (the rules on "
+         "the spelling of the constructor, copy() and the pickling tuple fall back on this execution when the spelling changed); distance "
+         "modulus formula by symbolic evaluation of the method body with the distance calls on (0, z) as terms in D_L.",
     note="Not decided: truncation-error bound of the fixed-order rule, bit-identical results of copies (follows from equal constructor "
          "arguments), libm. Trusted: clang AST, sympy normaliser, the method-table-to-Python naming of the extension type.",
     technique="static analysis: formula conformance by symbolic normal forms lowered from the clang AST, format/table agreement, sibling cross-check of wrappers and dispatchers, exhaustive abstract evaluation of the normaliser",
@@ -37,7 +41,7 @@ ONE = {"ez_inverse": "z", "dV": "z"}
 
 # rules that keep their verdict however the code is laid out (decided by term equality, effect analysis or dominance over
 # resolved calls); every other rule of this check is a template rule (vcheck.core.Check.obt)
-SEMANTIC = ('R11.1', 'R11.3', 'R11.4', 'R11.5::extract_parms', 'R11.6::state')
+SEMANTIC = ('R11.1', 'R11.3', 'R11.4', 'R11.5::extract_parms', 'R11.6::state', 'R11.7')
 
 
 def run(chk):
@@ -46,7 +50,10 @@ def run(chk):
     chk.explanation = MANIFEST["text"]
     chk.trusted = ["clang 14 AST", "sympy normaliser", "PyMethodDef name -> Python attribute"]
     chk.floor = 150
-    lib = cfront.functions(cfront.load_tu("cosmolib"))
+    lib_decls = cfront.load_tu("cosmolib")
+    _ENUMS.clear()
+    _load_enums(lib_decls)
+    lib = cfront.functions(lib_decls)
     wrap_decls = cfront.load_tu("cosmolib_pywrap")
     wrap = cfront.functions(wrap_decls)
     formulas(chk, lib)
@@ -54,9 +61,9 @@ def run(chk):
     wrappers(chk, lib, wrap, wrap_decls)
     dispatch(chk, repo)
     normaliser(chk, repo)
-    constructor(chk, repo, wrap)
-    copy_pickle(chk, repo)
-    object_state(chk, repo)
+    sem = object_state(chk, repo)
+    constructor(chk, repo, wrap, sem)
+    copy_pickle(chk, repo, sem)
     distmod(chk, repo)
 
 
@@ -87,6 +94,12 @@ class _Lower(csymx.Lower):
     def expr(self, n):
         k = n.get("kind")
         inner = n.get("inner", []) or []
+        if k == "$Term":
+            # a term put into the tree by the loop canonicaliser (the value a stepped variable has on entry to its loop)
+            return n["term"]
+        if k == "DeclRefExpr" and (n.get("referencedDecl") or {}).get("kind") == "EnumConstantDecl" and n["referencedDecl"].get("name") in _ENUMS \
+                and n["referencedDecl"]["name"] not in self.env:
+            return sp.Integer(_ENUMS[n["referencedDecl"]["name"]])
         if k == "MemberExpr":
             key = cfront.render(n)
             if key in self.env:
@@ -145,12 +158,201 @@ class _Lower(csymx.Lower):
     def run(self, stmts, cond=sp.true):
         res = []
         for st in stmts:
+            st = self._canon_switch(st)
             st = self._canon_loop(st)
+            st = self._canon_stepping(st)
             if not self._store_stmt(st) and not self._map_loop(st, cond):
                 res += csymx.Lower.run(self, [st], cond)
+            for v, t in (st.get("$after") or {}).items():
+                self.env[v] = t
             if st.get("kind") == "ReturnStmt":
                 break
         return res
+
+    # -- switch: an if / else-if chain over the case labels (no fall-through between non-empty groups) ---------------------------
+    def _canon_switch(self, st):
+        if st.get("kind") != "SwitchStmt":
+            return st
+        inner = [x for x in (st.get("inner", []) or []) if isinstance(x, dict) and x.get("kind")]
+        if len(inner) != 2 or inner[1].get("kind") != "CompoundStmt":
+            raise csymx.CUnsupported("switch statement form (line %s)" % st.get("line"))
+        sel, body = inner
+        if any(x.get("kind") in ("CallExpr", "CompoundAssignOperator") or (x.get("kind") in ("BinaryOperator", "UnaryOperator") and x.get("opcode") in ("=", "++", "--"))
+               for x in cfront.walk(sel)):
+            raise csymx.CUnsupported("switch on an expression with side effects (line %s)" % st.get("line"))
+        groups = []          # [labels (constant expression | None for default), statements]
+        for s_ in body.get("inner", []) or []:
+            labels = []
+            while s_.get("kind") in ("CaseStmt", "DefaultStmt"):
+                parts = [x for x in (s_.get("inner", []) or []) if isinstance(x, dict) and x.get("kind")]
+                if s_["kind"] == "CaseStmt":
+                    if len(parts) != 2:
+                        raise csymx.CUnsupported("case label form (line %s)" % s_.get("line"))
+                    labels.append(parts[0])
+                else:
+                    if len(parts) != 1:
+                        raise csymx.CUnsupported("default label form (line %s)" % s_.get("line"))
+                    labels.append(None)
+                s_ = parts[-1]
+            if labels:
+                if groups and (not groups[-1][1] or groups[-1][1][-1].get("kind") not in ("BreakStmt", "ReturnStmt")):
+                    raise csymx.CUnsupported("switch case falls through (line %s)" % s_.get("line"))
+                groups.append([labels, []])
+            elif not groups:
+                raise csymx.CUnsupported("statement before the first case label (line %s)" % s_.get("line"))
+            groups[-1][1].append(s_)
+        chain_else = []
+        arms = []
+        for labels, body_ in groups:
+            if body_ and body_[-1].get("kind") == "BreakStmt":
+                body_ = body_[:-1]
+            if any(x.get("kind") in ("BreakStmt", "CaseStmt", "DefaultStmt", "ContinueStmt") for b in body_ for x in cfront.walk(b)):
+                raise csymx.CUnsupported("break / label inside a switch arm (line %s)" % st.get("line"))
+            if None in labels:
+                chain_else = body_          # the explicit labels of this group go where `default` goes
+                continue
+            test = None
+            for lab in labels:
+                eq = {"kind": "BinaryOperator", "opcode": "==", "inner": [sel, lab]}
+                test = eq if test is None else {"kind": "BinaryOperator", "opcode": "||", "inner": [test, eq]}
+            arms.append((test, body_))
+        out = _compound(chain_else)
+        for test, body_ in reversed(arms):
+            has_else = bool(out.get("inner"))
+            out = _compound([{"kind": "IfStmt", "line": st.get("line"), "hasElse": has_else, "inner": [test, _compound(body_)] + ([out] if has_else else [])}])
+        stmts = out.get("inner", [])
+        return stmts[0] if len(stmts) == 1 else {"kind": "IfStmt", "line": st.get("line"), "hasElse": False,
+                                                  "inner": [{"kind": "IntegerLiteral", "value": "1"}, out]}
+
+    # -- loops that step pointers / several variables: the same loop over a fresh index ----------------------------------------
+    def _steps(self, inc):
+        """names of the variables the increment expression advances by one (v++, ++v, v += 1, joined by commas), else None"""
+        out = []
+
+        def visit(e):
+            e = cfront.strip(e)
+            k = e.get("kind")
+            if k == "BinaryOperator" and e.get("opcode") == ",":
+                return visit(e["inner"][0]) and visit(e["inner"][1])
+            if k == "UnaryOperator" and e.get("opcode") == "++":
+                tgt = cfront.strip(e["inner"][0])
+            elif k == "CompoundAssignOperator" and e.get("opcode") == "+=" and cfront.render(e["inner"][1]) == "1":
+                tgt = cfront.strip(e["inner"][0])
+            else:
+                return False
+            if tgt.get("kind") != "DeclRefExpr":
+                return False
+            out.append(tgt["referencedDecl"]["name"])
+            return True
+
+        if not isinstance(inc, dict) or not inc.get("kind") or not visit(inc) or len(set(out)) != len(out):
+            return None
+        return out
+
+    def _canon_stepping(self, st):
+        """`for (init; p < end; p++, q++) { ... *p ... *q = ... }` (also `!=`, `<=`, mirrored tests, an integer counter among the
+        stepped variables, an empty init) is rewritten into `for (i$ = 0; i$ < N; i$++)` with N = end - p(entry) and every stepped
+        variable v read as v(entry) + i$: `*v` and `v[k]` become v(entry)[i$] and v(entry)[i$ + k].  The classic counted loop
+        `for (i = lo; i < hi; i++)` is left as it is."""
+        if st.get("kind") != "ForStmt":
+            return st
+        init, _cv, test, inc, body = ((st.get("inner", []) or []) + [{}] * 5)[:5]
+        steps = self._steps(inc)
+        i0, t = cfront.strip(init) if init.get("kind") else {}, cfront.strip(test) if test.get("kind") else {}
+        if steps is not None and len(steps) == 1 and i0.get("kind") == "BinaryOperator" and i0.get("opcode") == "=" and cfront.render(i0["inner"][0]) == steps[0] \
+                and t.get("kind") == "BinaryOperator" and t.get("opcode") in ("<", "<=") and cfront.render(t["inner"][0]) == steps[0]:
+            return st
+        if steps is None:
+            raise csymx.CUnsupported("loop increment form (line %s)" % st.get("line"))
+        if not body.get("kind"):
+            raise csymx.CUnsupported("loop without a body (line %s)" % st.get("line"))
+        # the init part runs once, before the loop
+        def init_stmts(e):
+            e = cfront.strip(e)
+            if e.get("kind") == "BinaryOperator" and e.get("opcode") == ",":
+                return init_stmts(e["inner"][0]) + init_stmts(e["inner"][1])
+            return [e]
+        if init.get("kind"):
+            for s_ in init_stmts(init):
+                if s_.get("kind") not in ("DeclStmt", "NullStmt") and not (s_.get("kind") == "BinaryOperator" and s_.get("opcode") == "="):
+                    raise csymx.CUnsupported("loop init form (line %s)" % st.get("line"))
+                csymx.Lower.run(self, [s_])
+        if t.get("kind") != "BinaryOperator" or t.get("opcode") not in ("<", "<=", ">", ">=", "!="):
+            raise csymx.CUnsupported("loop test form (line %s)" % st.get("line"))
+        a, b = cfront.strip(t["inner"][0]), cfront.strip(t["inner"][1])
+        op = t["opcode"]
+        if a.get("kind") == "DeclRefExpr" and a["referencedDecl"]["name"] in steps and op in ("<", "<=", "!="):
+            pvar, bound = a["referencedDecl"]["name"], t["inner"][1]
+        elif b.get("kind") == "DeclRefExpr" and b["referencedDecl"]["name"] in steps and op in (">", ">=", "!="):
+            pvar, bound = b["referencedDecl"]["name"], t["inner"][0]
+        else:
+            raise csymx.CUnsupported("loop test form (line %s)" % st.get("line"))
+        bound_names = {x["referencedDecl"]["name"] for x in cfront.walk(bound) if x.get("kind") == "DeclRefExpr"}
+        if bound_names & set(steps):
+            raise csymx.CUnsupported("the loop bound moves with the loop (line %s)" % st.get("line"))
+        # nothing in the body may change a stepped variable or the bound, or leave the loop
+        for x in cfront.walk(body):
+            if x.get("kind") in ("BreakStmt", "ContinueStmt", "ReturnStmt", "GotoStmt"):
+                raise csymx.CUnsupported("the loop is left early (line %s)" % x.get("line"))
+            if x.get("kind") == "CompoundAssignOperator" or (x.get("kind") in ("BinaryOperator", "UnaryOperator") and x.get("opcode") in ("=", "++", "--")):
+                tgt = cfront.strip(x["inner"][0])
+                if tgt.get("kind") == "DeclRefExpr" and tgt["referencedDecl"]["name"] in set(steps) | bound_names:
+                    raise csymx.CUnsupported("the loop body changes %s (line %s)" % (tgt["referencedDecl"]["name"], x.get("line")))
+            if x.get("kind") == "UnaryOperator" and x.get("opcode") == "&":
+                tgt = cfront.strip(x["inner"][0])
+                if tgt.get("kind") == "DeclRefExpr" and tgt["referencedDecl"]["name"] in set(steps) | bound_names:
+                    raise csymx.CUnsupported("the loop body takes the address of %s (line %s)" % (tgt["referencedDecl"]["name"], x.get("line")))
+        entry = {v: self.env.get(v, sp.Symbol(v)) for v in steps}
+        count = self.expr(bound) - entry[pvar] + (1 if op in ("<=", ">=") else 0)
+        iv = "i$"
+        if any(str(x) == iv for e_ in list(entry.values()) + [count] for x in getattr(e_, "free_symbols", ())):
+            raise csymx.CUnsupported("nested stepping loops (line %s)" % st.get("line"))
+        ref = self._ref(iv)
+
+        # a stepped pointer starts at an array (a symbol or an opaque call such as PyArray_DATA(obj)) plus a constant offset
+        base = {}
+        for v in steps:
+            off, rest = sp.sympify(entry[v]).as_coeff_Add()
+            base[v] = (rest, off)
+
+        def ptr_parts(v, n):
+            rest, off = base[v]
+            if not (isinstance(rest, (sp.Symbol, sp.core.function.AppliedUndef)) and off.is_Integer):
+                raise csymx.CUnsupported("the stepped pointer %s does not start at an array the lowering can name (line %s)" % (v, n.get("line")))
+            return {"kind": "$Term", "term": rest}, {"kind": "$Term", "term": off}
+
+        def term(v):
+            return {"kind": "$Term", "term": entry[v]}
+
+        def is_ptr(n):
+            return (n.get("type") or {}).get("qualType", "").rstrip().endswith("*") or ((n.get("referencedDecl") or {}).get("type") or {}).get("qualType", "").rstrip().endswith("*")
+
+        def rw(n):
+            if not isinstance(n, dict):
+                return n
+            k = n.get("kind")
+            inner = n.get("inner", []) or []
+            if k == "UnaryOperator" and n.get("opcode") == "*" and cfront.strip(inner[0]).get("kind") == "DeclRefExpr" and cfront.strip(inner[0])["referencedDecl"]["name"] in steps:
+                b_, off = ptr_parts(cfront.strip(inner[0])["referencedDecl"]["name"], n)
+                return {"kind": "ArraySubscriptExpr", "line": n.get("line"), "inner": [b_, {"kind": "BinaryOperator", "opcode": "+", "inner": [ref, off]}]}
+            if k == "ArraySubscriptExpr" and cfront.strip(inner[0]).get("kind") == "DeclRefExpr" and cfront.strip(inner[0])["referencedDecl"]["name"] in steps:
+                b_, off = ptr_parts(cfront.strip(inner[0])["referencedDecl"]["name"], n)
+                return {"kind": "ArraySubscriptExpr", "line": n.get("line"), "inner": [
+                    b_, {"kind": "BinaryOperator", "opcode": "+", "inner": [{"kind": "BinaryOperator", "opcode": "+", "inner": [ref, off]}, rw(inner[1])]}]}
+            if k == "DeclRefExpr" and n["referencedDecl"]["name"] in steps:
+                if is_ptr(n):
+                    raise csymx.CUnsupported("the stepped pointer %s is used other than through * or [] (line %s)" % (n["referencedDecl"]["name"], n.get("line")))
+                return {"kind": "BinaryOperator", "opcode": "+", "inner": [term(n["referencedDecl"]["name"]), ref]}
+            if inner:
+                n = dict(n)
+                n["inner"] = [rw(x) for x in inner]
+            return n
+
+        return {"kind": "ForStmt", "line": st.get("line"), "$after": {v: entry[v] + count for v in steps}, "inner": [
+            {"kind": "BinaryOperator", "opcode": "=", "inner": [ref, {"kind": "IntegerLiteral", "value": "0"}]}, {},
+            {"kind": "BinaryOperator", "opcode": "<", "inner": [ref, {"kind": "$Term", "term": count}]},
+            {"kind": "UnaryOperator", "opcode": "++", "isPostfix": True, "inner": [ref]},
+            rw(body)]}
 
     def _store_stmt(self, st):
         """`*p = v` with p the address of a local (an out-parameter of an inlined helper) and `P[idx] = v`"""
@@ -254,6 +456,28 @@ def _eq(a, b):
 
 
 IDX = sp.Symbol("i", integer=True)
+_ENUMS = {}
+
+
+def _load_enums(decls):
+    """enumerator name -> value, from the enum declarations of a translation unit"""
+    for d in decls:
+        for e in cfront.walk(d):
+            if e.get("kind") != "EnumDecl":
+                continue
+            nxt = 0
+            for c in e.get("inner", []) or []:
+                if c.get("kind") != "EnumConstantDecl":
+                    continue
+                val = [x.get("value") for x in cfront.walk(c) if x.get("kind") in ("ConstantExpr", "IntegerLiteral") and x.get("value") is not None]
+                try:
+                    nxt = int(val[0]) if val else nxt
+                except ValueError:
+                    continue
+                _ENUMS[c["name"]] = nxt
+                nxt += 1
+
+
 POS = sp.Symbol("K_pos", positive=True)
 NEG = sp.Symbol("K_neg", negative=True)
 
@@ -278,6 +502,11 @@ def _same_in(t, ref, case):
     """True / False / None (a guard of the code is undecided in that case): t equals ref in the given case"""
     a = _case(t, case)
     if a is None:
+        # a guard on the sign of the curvature (directly or through a cached geometry flag) that the case leaves open: decided
+        # for positive, negative and zero curvature separately, which together are every real value
+        ok_ = sp.Symbol("c.omega_k")
+        if t is not None and ok_ not in case and ok_ in t.free_symbols:
+            return _all3(_same_in(t, ref, dict(list(case.items()) + [(ok_, v)])) for v in (POS, NEG, sp.Integer(0)))
         return None
     return bool(_eq(a, ref.subs(case, simultaneous=True)))
 
@@ -320,6 +549,44 @@ def _sum_ok(t, summand, n):
     return bool(lo == 0 and hi == n - 1 and _eq(f, summand))
 
 
+STRUCT_PARAMS = ("DH", "flat", "omega_m", "omega_l", "omega_k")
+STRUCT_KNOWN = STRUCT_PARAMS + ("tcfac", "x", "w", "vx", "vw")
+
+
+def _cached_members(chk, lib, st, W):
+    """members of struct cosmo, other than those the reference formulas are written in, that the constructor sets to a function of
+    its parameters (a cached geometry flag, say): {Symbol('c.<member>'): that function over the c.<parameter> symbols}.  Reading
+    such a member anywhere is reading that function, provided the parameters are stored as given (cosmo_new::parameters-stored)
+    and no other function of the library writes the member (one rule instance per cached member)."""
+    if not st:
+        return {}
+    out = {}
+    to_member = {S(m): S("c." + m) for m in STRUCT_PARAMS}
+    for key, val in st.items():
+        if not (isinstance(key, str) and key.startswith("c->")) or "[" in key or key[3:] in STRUCT_KNOWN or not isinstance(val, sp.Basic):
+            continue
+        name = key[3:]
+        if not name.isidentifier() or not val.free_symbols <= set(to_member):
+            continue
+        writers = set()
+        for fname, fn in lib.items():
+            if fname == "cosmo_new":
+                continue
+            for x in cfront.walk(cfront.body_of(fn)):
+                k, op = x.get("kind"), x.get("opcode")
+                if k == "CompoundAssignOperator" or (k in ("BinaryOperator", "UnaryOperator") and op in ("=", "++", "--", "&")):
+                    if k == "BinaryOperator" and op == "&":
+                        continue
+                    tgt = cfront.strip(x["inner"][0])
+                    if tgt.get("kind") == "MemberExpr" and tgt.get("name") == name:
+                        writers.add(fname)
+        chk.ob("R11.1", "struct-cosmo::cached-member-%s-set-only-by-constructor" % name, True if not writers else None, W,
+               "the member %s caches %s of the constructor's parameters; no other function of the library writes it or takes its address (%s)" % (name, val, sorted(writers)))
+        if not writers:
+            out[S("c." + name)] = val.subs(to_member, simultaneous=True)
+    return out
+
+
 def formulas(chk, lib):
     W = "esutil/cosmology/cosmolib.c"
     z, zmin, zmax, zl, zs = S("z"), S("zmin"), S("zmax"), S("zl"), S("zs")
@@ -327,12 +594,27 @@ def formulas(chk, lib):
     c = S("c")
     Fn = {n: sp.Function(n) for n in ("ez_inverse", "ez_inverse_integral", "Dc", "Dm", "Da", "Dl", "dV")}
 
+    # cosmo_new: the state of the struct when it is returned (stores to members are followed, helpers inlined)
+    if "cosmo_new" not in lib:
+        raise AnalysisError("cosmo_new not found")
+    try:
+        _, L = lowered(lib, "cosmo_new")
+        st = L.env
+    except csymx.CUnsupported as e:
+        chk.ob("R11.1", "cosmo_new::lowered", None, W, "cosmo_new is outside the C subset that is lowered (%s)" % e)
+        st = None
+    cached = _cached_members(chk, lib, st, W)
+
     def low(name):
         try:
-            return lowered(lib, name)[0]
+            t = lowered(lib, name)[0]
         except csymx.CUnsupported as e:
             chk.ob("R11.1", name + "::lowered", None, W, "the body of %s is outside the C subset that is lowered to a term (%s)" % (name, e))
             return None
+        if t is not None and cached and t.free_symbols & set(cached):
+            # a member that caches a function of the constructor's parameters is read as that function
+            t = t.subs(cached, simultaneous=True)
+        return t
 
     i = IDX
     # 1/E(z): decided per case of the flat flag (the guards are evaluated, their spelling and nesting do not matter)
@@ -387,15 +669,6 @@ def formulas(chk, lib):
                "the constant %s agrees with 4 pi G M_sun/c^2 per pc (x 1e6 pc/Mpc) = %.9g within 1e-3 (relative difference %s)" % (k, float(want), rel))
     else:
         chk.ob("R11.1", "scinv::distance-ratio", None, W, "the value of scinv for z_s > z_l could not be isolated (found %s)" % t)
-    # cosmo_new: the state of the struct when it is returned (stores to members are followed, helpers inlined)
-    if "cosmo_new" not in lib:
-        raise AnalysisError("cosmo_new not found")
-    try:
-        _, L = lowered(lib, "cosmo_new")
-        st = L.env
-    except csymx.CUnsupported as e:
-        chk.ob("R11.1", "cosmo_new::lowered", None, W, "cosmo_new is outside the C subset that is lowered (%s)" % e)
-        st = None
     if st is not None:
         pk, pDH, pflat = S("omega_k"), S("DH"), S("flat")
         tcv = st.get("c->tcfac")
@@ -751,8 +1024,9 @@ class _Need(Exception):
 
 
 class _Raised(Exception):
-    def __init__(self, what):
+    def __init__(self, what, line=None):
         self.what = what
+        self.line = line
 
 
 class _Arg:
@@ -785,7 +1059,7 @@ _UNKNOWN = _Tag("unknown")
 
 
 class _Interp:
-    def __init__(self, repo, max_forks=6):
+    def __init__(self, repo, max_forks=12):
         self.repo = repo
         self.max_forks = max_forks
 
@@ -796,16 +1070,17 @@ class _Interp:
         while todo:
             self.dec = todo.pop()
             self.calls = []
+            self.opaque = []
             try:
                 v = self.invoke(fi, list(argvals), {}, 0)
-                out.append({"kind": "return", "value": v, "calls": self.calls, "dec": dict(self.dec)})
+                out.append({"kind": "return", "value": v, "calls": self.calls, "dec": dict(self.dec), "opaque": self.opaque})
             except _Raised as r:
-                out.append({"kind": "raise", "value": r.what, "calls": self.calls, "dec": dict(self.dec)})
+                out.append({"kind": "raise", "value": r.what, "at": r.line, "calls": self.calls, "dec": dict(self.dec), "opaque": self.opaque})
             except _Need as n:
                 if len(self.dec) >= self.max_forks:
                     raise _Unsup("too many undecided tests")
-                todo.append(dict(self.dec, **{n.key: True}))
-                todo.append(dict(self.dec, **{n.key: False}))
+                todo.append(dict(list(self.dec.items()) + [(n.key, True)]))
+                todo.append(dict(list(self.dec.items()) + [(n.key, False)]))
         return out
 
     def invoke(self, fi, pos, kw, depth):
@@ -851,12 +1126,15 @@ class _Interp:
                     self.bind(t, v, env)
             elif isinstance(st, ast.AnnAssign) and st.value is not None:
                 self.bind(st.target, self.ev(st.value, env, fi, depth), env)
+            elif isinstance(st, ast.AugAssign) and isinstance(st.target, ast.Name):
+                load = ast.copy_location(ast.Name(id=st.target.id, ctx=ast.Load()), st.target)
+                self.bind(st.target, self.ev(ast.copy_location(ast.BinOp(left=load, op=st.op, right=st.value), st), env, fi, depth), env)
             elif isinstance(st, ast.If):
                 self.block(st.body if self.truth(st.test, env, fi, depth) else st.orelse, env, fi, depth)
             elif isinstance(st, ast.Return):
                 raise _Return(self.ev(st.value, env, fi, depth) if st.value is not None else None)
             elif isinstance(st, ast.Raise):
-                raise _Raised(norm(st.exc) if st.exc is not None else "re-raise")
+                raise _Raised(norm(st.exc) if st.exc is not None else "re-raise", getattr(st, "lineno", None))
             elif isinstance(st, ast.Assert):
                 if not self.truth(st.test, env, fi, depth):
                     raise _Raised("AssertionError")
@@ -883,10 +1161,111 @@ class _Interp:
             return is_and
         if isinstance(e, ast.UnaryOp) and isinstance(e.op, ast.Not):
             return not self.truth(e.operand, env, fi, depth)
+        r = self.fact_test(e, env, fi, depth)
+        if r is not None:
+            return r
         v = self.ev(e, env, fi, depth)
-        return self.as_bool(v, e)
+        return self.as_bool(v, e, env)
 
-    def as_bool(self, v, e):
+    # -- tests that establish what a conversion would establish ----------------
+    _CONTIG_FLAGS = ("c_contiguous", "contiguous", "carray", "C_CONTIGUOUS", "CONTIGUOUS", "C", "CARRAY", "CA")
+
+    def _arg_var(self, e, env):
+        if isinstance(e, ast.Name) and isinstance(env.get(e.id), _Arg):
+            return e.id
+        return None
+
+    def _fact_of(self, e, env, fi, depth):
+        """(variable, fact, polarity) when the test e is true (polarity True) / false (polarity False) exactly when the array-like
+        bound to the variable has the fact: 'nd1' at least one dimension, 'f8' native float64 elements, 'contig' C-contiguous"""
+        if isinstance(e, ast.Compare) and len(e.ops) == 1:
+            op, a, b = e.ops[0], e.left, e.comparators[0]
+
+            def ndim_of(x):
+                if isinstance(x, ast.Attribute) and x.attr == "ndim":
+                    return self._arg_var(x.value, env)
+                if isinstance(x, ast.Call) and len(x.args) == 1 and not x.keywords and self._arg_var(x.args[0], env):
+                    f = self.ev(x.func, env, fi, depth)
+                    if isinstance(f, _Tag) and f.kind == "global" and f.name == "numpy.ndim":
+                        return x.args[0].id
+                return None
+
+            def const(x):
+                return x.value if isinstance(x, ast.Constant) and isinstance(x.value, int) and not isinstance(x.value, bool) else None
+
+            for x, y, flip in ((a, b, False), (b, a, True)):
+                v, c = ndim_of(x), const(y)
+                if v is None or c is None:
+                    continue
+                t = type(op)
+                if flip:
+                    t = {ast.Lt: ast.Gt, ast.Gt: ast.Lt, ast.LtE: ast.GtE, ast.GtE: ast.LtE}.get(t, t)
+                # the number of dimensions is a non-negative integer
+                if (t, c) in ((ast.Gt, 0), (ast.GtE, 1), (ast.NotEq, 0)):
+                    return v, "nd1", True
+                if (t, c) in ((ast.Eq, 0), (ast.Lt, 1), (ast.LtE, 0)):
+                    return v, "nd1", False
+            if isinstance(op, (ast.Eq, ast.NotEq)):
+                for x, y in ((a, b), (b, a)):
+                    if isinstance(x, ast.Attribute) and x.attr == "dtype" and self._arg_var(x.value, env):
+                        d = self.ev(y, env, fi, depth)
+                        if isinstance(y, ast.Call) and isinstance(d, _Tag) and d.kind == "unknown" and len(y.args) == 1 and not y.keywords:
+                            f = self.ev(y.func, env, fi, depth)
+                            if isinstance(f, _Tag) and f.kind == "global" and f.name == "numpy.dtype":
+                                d = self.ev(y.args[0], env, fi, depth)
+                        # equal to the native float64 type object / type string: a byte-swapped or narrower type is not equal
+                        if self.is_f8(d) and not (isinstance(d, str) and d in ("float", "np.float", "np.float_", "numpy.float64", "np.float64", "np.double")):
+                            return x.value.id, "f8", isinstance(op, ast.Eq)
+            return None
+        if isinstance(e, ast.Attribute) and isinstance(e.value, ast.Attribute) and e.value.attr == "flags" and e.attr in self._CONTIG_FLAGS:
+            v = self._arg_var(e.value.value, env)
+            return (v, "contig", True) if v else None
+        if isinstance(e, ast.Subscript) and isinstance(e.value, ast.Attribute) and e.value.attr == "flags" and isinstance(e.slice, ast.Constant) \
+                and e.slice.value in self._CONTIG_FLAGS:
+            v = self._arg_var(e.value.value, env)
+            return (v, "contig", True) if v else None
+        return None
+
+    def fact_test(self, e, env, fi, depth):
+        """True / False for a recognised test on an argument, None when e is not one.  On the paths on which the test establishes
+        the fact, the variable is re-bound to the argument with that fact: a guarded fast path that skips a conversion then hands
+        on what the conversion would have produced."""
+        # is this a plain (base-class) array?  never true for a scalar; says nothing about layout
+        if isinstance(e, ast.Call) and not e.keywords:
+            f = self.ev(e.func, env, fi, depth) if not (isinstance(e.func, ast.Name) and e.func.id in env) else None
+            nm = f.name if isinstance(f, _Tag) and f.kind == "global" else None
+            if nm in ("isinstance", "builtins.isinstance") and len(e.args) == 2 and self._arg_var(e.args[0], env):
+                cls = self.ev(e.args[1], env, fi, depth)
+                if isinstance(cls, _Tag) and cls.kind == "global" and cls.name == "numpy.ndarray" and env[e.args[0].id].scalar:
+                    return False
+        if isinstance(e, ast.Compare) and len(e.ops) == 1 and isinstance(e.ops[0], (ast.Is, ast.IsNot, ast.Eq, ast.NotEq)):
+            for x, y in ((e.left, e.comparators[0]), (e.comparators[0], e.left)):
+                if isinstance(x, ast.Call) and isinstance(x.func, ast.Name) and x.func.id == "type" and "type" not in env and len(x.args) == 1 \
+                        and not x.keywords and self._arg_var(x.args[0], env) and env[x.args[0].id].scalar:
+                    cls = self.ev(y, env, fi, depth)
+                    if isinstance(cls, _Tag) and cls.kind == "global" and cls.name == "numpy.ndarray":
+                        return isinstance(e.ops[0], (ast.IsNot, ast.NotEq))
+        fact = self._fact_of(e, env, fi, depth)
+        if fact is None:
+            return None
+        var, what, pol = fact
+        a = env[var]
+        if a.scalar:
+            # attributes of a Python scalar: not modelled
+            return None
+        if getattr(a, what):
+            return pol
+        key = "fact:%s:%s:%r" % (what, var, a)
+        if key not in self.dec:
+            raise _Need(key)
+        if self.dec[key]:
+            b = _Arg(a.name, a.scalar, a.f8, a.contig, a.nd1)
+            setattr(b, what, True)
+            env[var] = b
+            return pol
+        return not pol
+
+    def as_bool(self, v, e, env=None):
         if isinstance(v, _Tag) and v.kind == "cond":
             if v.key not in self.dec:
                 raise _Need(v.key)
@@ -898,7 +1277,10 @@ class _Interp:
                 return False
             if v.is_nonzero is True or v.is_zero is False:
                 return True
-        key = "test:" + norm(e)
+        # a test the interpreter cannot decide: both outcomes are explored.  The same text applied to different arguments (a
+        # helper called once per argument) is a different test.
+        about = sorted({repr(env[n.id]) for n in ast.walk(e) if isinstance(n, ast.Name) and isinstance(env.get(n.id), _Arg)}) if env else []
+        key = "test:" + norm(e) + ("".join(" @" + a for a in about))
         if key not in self.dec:
             raise _Need(key)
         return self.dec[key]
@@ -933,8 +1315,17 @@ class _Interp:
                 return _Tag("extmethod", name=e.attr)
             if isinstance(b, _Tag) and b.kind == "global":
                 return _Tag("global", name=b.name + "." + e.attr)
+            if isinstance(b, dict):
+                if e.attr == "copy":
+                    return _Tag("dictcopy", of=b)
+                if e.attr == "get":
+                    return _Tag("dictget", of=b)
+                # the interpreter does not model updates of a mapping: anything that could be one is out of the subset
+                raise _Unsup("method %s of a mapping (line %s)" % (e.attr, getattr(e, "lineno", "?")))
             if isinstance(b, _Arg) and e.attr == "size":
                 return _Tag("len", of=b.name)
+            if isinstance(b, _Arg) and e.attr == "shape":
+                return _Tag("shape", of=b.name)
             if isinstance(b, _Arg):
                 return _Tag("argattr", arg=b, name=e.attr)
             return _UNKNOWN
@@ -974,11 +1365,51 @@ class _Interp:
             return self.compare(e.ops[0], self.ev(e.left, env, fi, depth), self.ev(e.comparators[0], env, fi, depth))
         if isinstance(e, ast.IfExp):
             return self.ev(e.body if self.truth(e.test, env, fi, depth) else e.orelse, env, fi, depth)
+        if isinstance(e, ast.List):
+            return tuple(self.ev(x, env, fi, depth) for x in e.elts)
+        if isinstance(e, ast.Dict):
+            # a table: values are looked up by key, so that a dispatch table is followed to the entry it selects
+            out = {}
+            for k, v in zip(e.keys, e.values):
+                if k is None:
+                    m = self.ev(v, env, fi, depth)
+                    if not isinstance(m, dict):
+                        raise _Unsup("** of something that is not a known mapping (line %s)" % getattr(e, "lineno", "?"))
+                    out.update(m)
+                    continue
+                kk = self.ev(k, env, fi, depth)
+                if not self.plain_key(kk):
+                    raise _Unsup("mapping with a key the interpreter cannot compute (line %s)" % getattr(e, "lineno", "?"))
+                out[kk] = self.ev(v, env, fi, depth)
+            return out
+        if isinstance(e, ast.Subscript):
+            b = self.ev(e.value, env, fi, depth)
+            if isinstance(b, _Tag) and b.kind == "shape" and isinstance(e.slice, ast.Constant) and e.slice.value == 0:
+                # the first dimension is what len() reports
+                return _Tag("len", of=b.of)
+            if isinstance(b, dict):
+                kk = self.ev(e.slice, env, fi, depth)
+                if self.plain_key(kk) and kk in b:
+                    return b[kk]
+                raise _Unsup("mapping subscript %s" % norm(e))
+            if isinstance(b, tuple):
+                kk = self.ev(e.slice, env, fi, depth)
+                if isinstance(kk, int) and not isinstance(kk, bool) and -len(b) <= kk < len(b):
+                    return b[kk]
+                if isinstance(kk, bool):
+                    return b[int(kk)]
+            return _UNKNOWN
         if isinstance(e, ast.JoinedStr):
             return _UNKNOWN
         if isinstance(e, ast.Call):
             return self.call(e, env, fi, depth)
         return _UNKNOWN
+
+    @staticmethod
+    def plain_key(k):
+        if isinstance(k, tuple):
+            return all(_Interp.plain_key(x) for x in k)
+        return k is None or isinstance(k, (bool, int, float, str))
 
     def compare(self, op, a, b):
         if isinstance(op, (ast.Is, ast.IsNot)):
@@ -992,7 +1423,9 @@ class _Interp:
                 return (a is b) if isinstance(op, ast.Is) else (a is not b)
             return _UNKNOWN
         if isinstance(op, (ast.Eq, ast.NotEq)):
-            if isinstance(a, _Tag) and isinstance(b, _Tag) and a.kind == "len" and b.kind == "len" and a.of != b.of:
+            if isinstance(a, _Tag) and isinstance(b, _Tag) and a.kind == b.kind and a.kind in ("len", "shape") and a.of != b.of:
+                # arrays of different lengths have different shapes: a test on the shapes rejects at least what a test on the
+                # lengths rejects
                 return _Tag("cond", key="lengths-differ", pol=isinstance(op, ast.NotEq))
             r = None
             simple = (type(None), bool, int, float, str)
@@ -1020,6 +1453,13 @@ class _Interp:
         if isinstance(f, _Tag) and f.kind == "extmethod":
             self.calls.append((f.name, pos, kw))
             return _Tag("extresult", idx=len(self.calls) - 1)
+        if isinstance(f, _Tag) and f.kind == "dictcopy" and not pos and not kw:
+            return dict(f.of)
+        if isinstance(f, _Tag) and f.kind == "dictget" and 1 <= len(pos) <= 2 and not kw and self.plain_key(pos[0]):
+            return f.of.get(pos[0], pos[1] if len(pos) > 1 else None)
+        if isinstance(f, _Tag) and f.kind in ("unknown", "selfattr", "extresult", "argattr") and not (f.kind == "argattr" and f.name in ("astype", "ravel", "flatten", "copy", "reshape")):
+            # a callee the interpreter could not identify: whatever it does is not seen
+            self.opaque.append(norm(c))
         if isinstance(f, _Tag) and f.kind in ("func", "method"):
             return self.invoke(f.fi, pos, kw, depth + 1)
         name = None
@@ -1032,8 +1472,10 @@ class _Interp:
                 return 0 if pos[0].scalar else (_UNKNOWN if not pos[0].nd1 else 1)
             # a converted value (at least 1-d array) is not a scalar any more
             return pos[0].scalar and not pos[0].nd1
-        if name == "len" and len(pos) == 1 and isinstance(pos[0], _Arg):
+        if name in ("len", "numpy.size") and len(pos) == 1 and not kw and isinstance(pos[0], _Arg):
             return _Tag("len", of=pos[0].name)
+        if name == "numpy.shape" and len(pos) == 1 and not kw and isinstance(pos[0], _Arg):
+            return _Tag("shape", of=pos[0].name)
         if name == "getattr" and len(pos) >= 2 and isinstance(pos[0], _Tag) and pos[0].kind == "ext" and isinstance(pos[1], str):
             return _Tag("extmethod", name=pos[1])
         if name in ("bool", "float", "int", "str") and len(pos) == 1 and isinstance(pos[0], (bool, int, float, str)):
@@ -1044,6 +1486,17 @@ class _Interp:
             a = f.arg
             d = pos[0] if pos else kw.get("dtype")
             return _Arg(a.name, a.scalar, self.is_f8(d), a.contig, a.nd1)
+        if isinstance(f, _Tag) and f.kind == "argattr" and not f.arg.scalar:
+            a = f.arg
+            if f.name in ("ravel", "flatten") and not pos and kw.get("order", "C") == "C":
+                # a C-ordered 1-d array of the same elements
+                return _Arg(a.name, a.scalar, a.f8, True, True)
+            if f.name == "copy" and not pos and kw.get("order", "C") == "C":
+                return _Arg(a.name, a.scalar, a.f8, True, a.nd1)
+            if f.name == "reshape" and pos and not kw and all(isinstance(x, int) and not isinstance(x, bool) for x in (pos[0] if isinstance(pos[0], tuple) else pos)) \
+                    and len(pos[0] if isinstance(pos[0], tuple) else pos) >= 1:
+                # same elements and element type in at least one dimension; a contiguous array stays contiguous
+                return _Arg(a.name, a.scalar, a.f8, a.contig, True)
         return _UNKNOWN
 
     @staticmethod
@@ -1087,6 +1540,31 @@ def _run_paths(chk, repo, fi, argvals, rule, key):
         return None
 
 
+def _raise_hangs_on_unknown_test(o, outs):
+    """the raising path o would not have raised (there) had one of the tests the interpreter could not decide gone the other way:
+    some other path takes that test the other way, agrees with o on every other decision both of them took, and does not end in
+    the same raise"""
+    for k, v in o["dec"].items():
+        if not k.startswith("test:"):
+            continue
+        for o2 in outs:
+            d2 = o2["dec"]
+            if d2.get(k) == (not v) and all(d2[x] == y for x, y in o["dec"].items() if x != k and x in d2) \
+                    and not (o2["kind"] == "raise" and o2["value"] == o["value"] and o2.get("at") == o.get("at")):
+                return True
+    return False
+
+
+def _blind(o):
+    """a path on which the interpreter lost sight of the computation: it returns without having seen a call into the extension
+    object but made a call through something it could not identify, or handed the extension a value it knows nothing about"""
+    if o["kind"] != "return":
+        return False
+    if not o["calls"]:
+        return bool(o.get("opaque"))
+    return len(o["calls"]) == 1 and any(a is _UNKNOWN for a in o["calls"][0][1])
+
+
 def _ext_call_ok(o, name, argnames):
     """the path makes exactly one call into the extension object, to `name`, with the method's own arguments in order"""
     if o["kind"] != "return" or len(o["calls"]) != 1:
@@ -1100,6 +1578,7 @@ def dispatch(chk, repo):
         fi = repo.func(CQ + "Cosmo." + meth)
         chk.analysed_unit(fi.qualname)
         normal_all = []
+        unknown_all = []
         for s1 in (True, False):
             for s2 in (True, False):
                 suffix = {(True, True): "", (False, True): "_vec1", (True, False): "_vec2", (False, False): "_2vec"}[(s1, s2)]
@@ -1109,10 +1588,21 @@ def dispatch(chk, repo):
                     continue
                 # paths on which two array arguments were found to differ in length are judged by the rejection rule below
                 normal = [o for o in outs if not o["dec"].get("lengths-differ")]
+                # a path that raises, before any call into the extension, on a test the interpreter could not decide: a rejection
+                # the checker has not identified (possibly the length check in a spelling it does not know) -- no verdict from it
+                unknown_reject = [o for o in normal if o["kind"] == "raise" and not o["calls"] and _raise_hangs_on_unknown_test(o, outs)]
+                normal = [o for o in normal if o not in unknown_reject]
                 normal_all += normal
                 found = [(o["kind"], [(n, pos) for n, pos, _ in o["calls"]]) for o in normal]
                 ok = bool(normal) and all(_ext_call_ok(o, cq + suffix, (a1, a2)) for o in normal)
-                chk.ob("R11.4", tag + "::selects-" + cq + suffix, ok, fi.where(), "dispatches to _cosmo.%s(%s, %s) (found %s)" % (cq + suffix, a1, a2, found))
+                blind = [o for o in normal if not _ext_call_ok(o, cq + suffix, (a1, a2)) and _blind(o)]
+                if (ok and unknown_reject) or (not ok and blind and all(_ext_call_ok(o, cq + suffix, (a1, a2)) for o in normal if o not in blind)):
+                    # the extension call goes through a callee the interpreter could not follow (or some rejection was not
+                    # identified): nothing contradicts the rule, nothing establishes it
+                    ok = None
+                    unknown_all.append(tag)
+                chk.ob("R11.4", tag + "::selects-" + cq + suffix, ok, fi.where(), "dispatches to _cosmo.%s(%s, %s) (found %s%s)" % (
+                    cq + suffix, a1, a2, found, "; and %d path(s) that raise on a test the interpreter cannot decide" % len(unknown_reject) if unknown_reject else ""))
                 # array arguments reach the extension converted (float64, C-contiguous, at least 1-d), scalars untouched
                 if ok:
                     good = all(all((a.untouched() if s else a.converted()) for a, s in zip(o["calls"][0][1], (s1, s2))) for o in normal)
@@ -1122,8 +1612,14 @@ def dispatch(chk, repo):
                 if not s1 and not s2:
                     differ = [o for o in outs if o["dec"].get("lengths-differ")]
                     okg = bool(differ) and all(o["kind"] == "raise" and not o["calls"] for o in differ)
+                    if not differ and unknown_reject:
+                        # no comparison of the two lengths was recognised, but some test the interpreter cannot decide rejects
+                        # the arguments before the call: that may be the length check
+                        okg = None
                     chk.ob("R11.4", tag + "::length-mismatch-rejected", okg, fi.where(), "different lengths raise before the two-array call (paths with differing lengths: %s)" % [(o["kind"], [n for n, _, _ in o["calls"]]) for o in differ])
         okr = bool(normal_all) and all(o["kind"] == "return" and isinstance(o["value"], _Tag) and o["value"].kind == "extresult" and o["value"].idx == len(o["calls"]) - 1 for o in normal_all)
+        if not normal_all and unknown_all:
+            okr = None
         chk.ob("R11.4", meth + "::returns-result", okr, fi.where(), "the extension's result is returned unmodified")
     for meth, cq in (("dV", "dV"), ("Ez_inverse", "ez_inverse")):
         fi = repo.func(CQ + "Cosmo." + meth)
@@ -1134,15 +1630,23 @@ def dispatch(chk, repo):
             if outs is None:
                 continue
             want = cq + ("" if s_ else "_vec")
-            ok = bool(outs) and all(_ext_call_ok(o, want, ("z",)) and (o["calls"][0][1][0].untouched() if s_ else o["calls"][0][1][0].converted())
-                                    and isinstance(o["value"], _Tag) and o["value"].kind == "extresult" for o in outs)
+            def good(o):
+                return _ext_call_ok(o, want, ("z",)) and (o["calls"][0][1][0].untouched() if s_ else o["calls"][0][1][0].converted()) \
+                    and isinstance(o["value"], _Tag) and o["value"].kind == "extresult"
+            ok = bool(outs) and all(good(o) for o in outs)
+            if not ok and any(_blind(o) for o in outs) and all(good(o) or _blind(o) for o in outs):
+                ok = None       # the call goes through something the interpreter could not follow: nothing contradicts the rule
             chk.ob("R11.4", key, ok, fi.where(), "dispatches to _cosmo.%s(z)%s and returns its result (found %s)" % (want, "" if s_ else " with z converted", [(o["kind"], o["calls"]) for o in outs]))
     for meth, cq in (("V", "V"), ("Ezinv_integral", "ez_inverse_integral")):
         fi = repo.func(CQ + "Cosmo." + meth)
         outs = _run_paths(chk, repo, fi, [_Arg("zmin", True), _Arg("zmax", True)], "R11.4", meth + "::delegates")
         if outs is None:
             continue
-        ok = bool(outs) and all(_ext_call_ok(o, cq, ("zmin", "zmax")) and all(a.untouched() for a in o["calls"][0][1]) and isinstance(o["value"], _Tag) and o["value"].kind == "extresult" for o in outs)
+        def good2(o):
+            return _ext_call_ok(o, cq, ("zmin", "zmax")) and all(a.untouched() for a in o["calls"][0][1]) and isinstance(o["value"], _Tag) and o["value"].kind == "extresult"
+        ok = bool(outs) and all(good2(o) for o in outs)
+        if not ok and any(_blind(o) for o in outs) and all(good2(o) or _blind(o) for o in outs):
+            ok = None
         chk.ob("R11.4", meth + "::delegates", ok, fi.where(), "delegates to _cosmo.%s(zmin, zmax) (found %s)" % (cq, [(o["kind"], o["calls"]) for o in outs]))
     ac = repo.func(CQ + "_as_c_order")
     outs = _run_paths(chk, repo, ac, [_Arg("arr", False)], "R11.4", "_as_c_order::float64-contiguous")
@@ -1187,7 +1691,7 @@ def normaliser(chk, repo):
     chk.assume("parameter normalisation rule as implemented and documented: a non-zero omega_k decides the geometry; otherwise flat with omega_k=0 and omega_l=1-omega_m")
 
 
-def constructor(chk, repo, wrap):
+def constructor(chk, repo, wrap, sem=None):
     fi = repo.func(CQ + "Cosmo.__init__")
     chk.analysed_unit(fi.qualname)
     cfg = cfg_of(fi)
@@ -1196,20 +1700,29 @@ def constructor(chk, repo, wrap):
     for n in cfg.nodes:
         if n.kind == "stmt" and isinstance(n.ast, ast.Assign):
             env.setdefault(norm(n.ast.targets[0]), []).append((norm(n.ast.value), rules.controlling_tests(view, n)))
-    chk.ob("R11.5", "Cosmo.__init__::h-overrides-H0", ("100.0 * h", [("h is not None", "T")]) in env.get("H0", []), fi.where(), "H0 = 100 h when h is given (%s)" % env.get("H0"))
-    chk.ob("R11.5", "Cosmo.__init__::hubble-distance", [v for v, _ in env.get("DH", [])] == ["_CLIGHT / H0"], fi.where(), "D_H = c / H0")
+    # each of these holds when the statement the reviewed constructor has today is found; otherwise it is decided by what the
+    # constructor, executed abstractly on symbolic arguments (object_state), hands to the extension object
+    via = " [decided by abstract execution of the constructor: %s]"
+    sv = _sem(sem, ["hubble-distance"], ("h", "H0+h"))
+    chk.ob("R11.5", "Cosmo.__init__::h-overrides-H0", _or_sem(("100.0 * h", [("h is not None", "T")]) in env.get("H0", []), sv), fi.where(), "H0 = 100 h when h is given (%s)" % env.get("H0") + via % sv)
+    sv = _sem(sem, ["hubble-distance"])
+    chk.ob("R11.5", "Cosmo.__init__::hubble-distance", _or_sem([v for v, _ in env.get("DH", [])] == ["_CLIGHT / H0"], sv), fi.where(), "D_H = c / H0" + via % sv)
     h0n = [n for n in cfg.nodes if n.kind == "stmt" and isinstance(n.ast, ast.Assign) and norm(n.ast.targets[0]) == "H0"]
     dhn = [n for n in cfg.nodes if n.kind == "stmt" and isinstance(n.ast, ast.Assign) and norm(n.ast.targets[0]) == "DH"]
-    chk.ob("R11.5", "Cosmo.__init__::override-before-DH", bool(h0n) and bool(dhn) and view.reaches(h0n[0], dhn[0]), fi.where(), "the override happens before D_H is formed")
+    sv = _sem(sem, ["hubble-distance"], ("H0+h",))
+    chk.ob("R11.5", "Cosmo.__init__::override-before-DH", _or_sem(bool(h0n) and bool(dhn) and view.reaches(h0n[0], dhn[0]), sv), fi.where(), "the override happens before D_H is formed" + via % sv)
     c = [v for v, _ in env.get("self._cosmo", [])]
-    chk.ob("R11.5", "Cosmo.__init__::extension-arguments", c == ["_cosmolib.cosmo(DH, flat, omega_m, omega_l, omega_k)"], fi.where(), "the extension object gets (D_H, flat, omega_m, omega_l, omega_k) after normalisation (%s)" % c)
+    sv = _sem(sem, ["hubble-distance", "extension-arguments"])
+    chk.ob("R11.5", "Cosmo.__init__::extension-arguments", _or_sem(c == ["_cosmolib.cosmo(DH, flat, omega_m, omega_l, omega_k)"], sv), fi.where(), "the extension object gets (D_H, flat, omega_m, omega_l, omega_k) after normalisation (%s)" % c + via % sv)
     init = wrap.get("PyCosmoObject_init")
     fmt, names = parse_tuple_binding(init) if init else (None, [])
     chk.ob("R11.5", "PyCosmoObject_init::parse-format", parse_tuple_format(fmt or "") == ["d", "i", "d", "d", "d"] and names == ["DH", "flat", "omega_m", "omega_l", "omega_k"], "esutil/cosmology/cosmolib_pywrap.c", "format %r binds %s" % (fmt, names))
     calls = [cfront.render(x) for x in cfront.calls_in(init) if cfront.callee_name(x) == "cosmo_new"] if init else []
     chk.ob("R11.5", "PyCosmoObject_init::constructs-with-same-order", calls == ["cosmo_new(DH, flat, omega_m, omega_l, omega_k)"], "esutil/cosmology/cosmolib_pywrap.c", "cosmo_new receives the parsed values in order")
     ex = [(v, t) for v, t in env.get("(flat, omega_m, omega_l, omega_k)", [])]
-    chk.ob("R11.5", "Cosmo.__init__::normaliser-roles", [v for v, _ in ex] == ["self.extract_parms(omega_m, omega_l, omega_k, flat)"], fi.where(), "extract_parms(omega_m, omega_l, omega_k, flat) -> (flat, omega_m, omega_l, omega_k)")
+    sv = _sem(sem, ["extension-arguments"])
+    chk.ob("R11.5", "Cosmo.__init__::normaliser-roles", _or_sem([v for v, _ in ex] == ["self.extract_parms(omega_m, omega_l, omega_k, flat)"], sv), fi.where(),
+           "extract_parms(omega_m, omega_l, omega_k, flat) -> (flat, omega_m, omega_l, omega_k)" + via % sv)
     # constants: speed of light in km/s in Python and in the C header
     mod = repo.module("esutil.cosmology.cosmology")
     cl = norm(mod.consts.get("_CLIGHT", ast.Constant(value=None)))
@@ -1223,37 +1736,51 @@ def constructor(chk, repo, wrap):
     chk.ob("R11.2", "constants::documented-orders", bool(m5) and bool(m10) and m5.group(1) == "5" and m10.group(1) == "10", "esutil/cosmology/cosmolib.h", "NPTS = 5, VNPTS = 10 (documented fixed orders)")
 
 
-def copy_pickle(chk, repo):
+def copy_pickle(chk, repo, sem=None):
+    """each rule holds when the spelling the reviewed code has today is found; otherwise it is decided by what it stands for:
+    the object obtained through that route is built from the same extension arguments and reports the same H0() (object_state)"""
+    via = " [decided by abstract execution of the route: %s]"
     fi = repo.func(CQ + "Cosmo.copy")
     chk.analysed_unit(fi.qualname)
     rets = [x for x in walk_no_nested(fi.node) if isinstance(x, ast.Return)]
     ok = len(rets) == 1 and isinstance(rets[0].value, ast.Call) and call_name(rets[0].value) == "Cosmo"
     kws = {k.arg: norm(k.value) for k in rets[0].value.keywords} if ok else {}
     want = {"H0": "self._H0", "flat": "self._flat", "omega_m": "self._omega_m", "omega_l": "self._omega_l", "omega_k": "self._omega_k"}
-    chk.ob("R11.6", "Cosmo.copy::forwards-stored-inputs-by-keyword", kws == want, fi.where(), "copy() rebuilds from the stored inputs by keyword (%s)" % kws)
+    sv = _sem(sem, ["copy()"])
+    chk.ob("R11.6", "Cosmo.copy::forwards-stored-inputs-by-keyword", _or_sem(kws == want, sv), fi.where(), "copy() rebuilds from the stored inputs by keyword (%s)" % kws + via % sv)
     init = repo.func(CQ + "Cosmo.__init__")
     st = {norm(a.targets[0]): norm(a.value) for a in walk_no_nested(init.node) if isinstance(a, ast.Assign) and norm(a.targets[0]).startswith("self._")}
     okk = st.get("self._flat") == "flat" and st.get("self._omega_m") == "omega_m" and st.get("self._omega_l") == "omega_l" and st.get("self._omega_k") == "omega_k" and st.get("self._H0") == "H0"
-    chk.ob("R11.6", "Cosmo.__init__::inputs-stored-as-given", okk, init.where(), "the inputs are stored as given (before normalisation) and H0 after the h override (%s)" % {k: v for k, v in st.items() if k != "self._cosmo"})
+    chk.ob("R11.6", "Cosmo.__init__::inputs-stored-as-given", _or_sem(okk, sv), init.where(), "the inputs are stored as given (before normalisation) and H0 after the h override (%s)" % {k: v for k, v in st.items() if k != "self._cosmo"} + via % sv)
     # the stored raw inputs are saved before the local names are re-bound by the normaliser
     cfg = cfg_of(init)
     view = cfg.view()
     stores = [n for n in cfg.nodes if n.kind == "stmt" and isinstance(n.ast, ast.Assign) and norm(n.ast.targets[0]) in ("self._flat", "self._omega_m", "self._omega_l", "self._omega_k")]
     ext = [n for n in cfg.nodes if n.kind == "stmt" and isinstance(n.ast, ast.Assign) and "extract_parms" in norm(n.ast.value)]
-    chk.ob("R11.6", "Cosmo.__init__::raw-inputs-saved-before-normalisation", bool(ext) and len(stores) == 4 and all(view.dominates(s, ext[0]) for s in stores), init.where(), "raw inputs are saved before extract_parms re-binds the local names")
-    for m in ("__copy__", "__deepcopy__"):
-        f = repo.func(CQ + "Cosmo." + m)
+    chk.ob("R11.6", "Cosmo.__init__::raw-inputs-saved-before-normalisation", _or_sem(bool(ext) and len(stores) == 4 and all(view.dominates(s, ext[0]) for s in stores), sv), init.where(),
+           "raw inputs are saved before extract_parms re-binds the local names" + via % sv)
+    for m, route in (("__copy__", "copy.copy"), ("__deepcopy__", "copy.deepcopy")):
+        f = repo.funcs.get(CQ + "Cosmo." + m)
+        if f is None:
+            chk.ob("R11.6", "Cosmo.%s::delegates-to-copy" % m, None, fi.where(), "the class no longer defines %s: what the copy module does with the object is not modelled" % m)
+            continue
         r = [norm(x.value) for x in walk_no_nested(f.node) if isinstance(x, ast.Return)]
-        chk.ob("R11.6", "Cosmo.%s::delegates-to-copy" % m, r == ["self.copy()"], f.where(), "%s is copy()" % m)
-    red = repo.func(CQ + "Cosmo.__reduce__")
-    r = [norm(x.value) for x in walk_no_nested(red.node) if isinstance(x, ast.Return)]
-    chk.ob("R11.6", "Cosmo.__reduce__::class-and-pars", r == ["(self.__class__, self._pars)"], red.where(), "pickling re-creates the class from _pars")
-    pars = repo.func(CQ + "Cosmo._pars")
-    pr = [x for x in walk_no_nested(pars.node) if isinstance(x, ast.Return)]
+        sv = _sem(sem, [route])
+        chk.ob("R11.6", "Cosmo.%s::delegates-to-copy" % m, _or_sem(r == ["self.copy()"], sv), f.where(), "%s is copy()" % m + via % sv)
+    sv = _sem(sem, ["pickle"])
+    red = repo.funcs.get(CQ + "Cosmo.__reduce__")
+    if red is None:
+        chk.ob("R11.6", "Cosmo.__reduce__::class-and-pars", None, fi.where(), "the class no longer defines __reduce__: default pickling is not modelled")
+    else:
+        r = [norm(x.value) for x in walk_no_nested(red.node) if isinstance(x, ast.Return)]
+        chk.ob("R11.6", "Cosmo.__reduce__::class-and-pars", _or_sem(r == ["(self.__class__, self._pars)"], sv), red.where(), "pickling re-creates the class from _pars" + via % sv)
+    pars = repo.funcs.get(CQ + "Cosmo._pars")
+    pr = [x for x in walk_no_nested(pars.node) if isinstance(x, ast.Return)] if pars is not None else []
     elts = [norm(e) for e in pr[0].value.elts] if pr and isinstance(pr[0].value, ast.Tuple) else []
     pos = [p for p in init.params if p != "self"]
     want = {"H0": "self.H0()", "h": "None", "flat": "bool(self.flat())", "omega_m": "self.omega_m()", "omega_l": "self.omega_l()", "omega_k": "self.omega_k()"}
-    chk.ob("R11.6", "Cosmo._pars::constructor-positional-order", elts == [want[p] for p in pos], pars.where(), "the pickling tuple follows the constructor's positional order %s (found %s)" % (pos, elts))
+    chk.ob("R11.6", "Cosmo._pars::constructor-positional-order", _or_sem(bool(elts) and elts == [want.get(p) for p in pos], sv), (pars or red or fi).where(),
+           "the pickling tuple follows the constructor's positional order %s (found %s)" % (pos, elts) + via % sv)
 
 # --------------------------------------------------------------------------
 # object state: the constructor, the parameter accessors and the four ways of duplicating an object (copy(), __copy__,
@@ -1300,6 +1827,7 @@ class _ObjInterp(_Interp):
         while todo:
             self.dec = todo.pop()
             self.calls = []
+            self.opaque = []
             try:
                 out.append({"kind": "return", "value": thunk(), "dec": dict(self.dec)})
             except _Raised as r:
@@ -1307,8 +1835,8 @@ class _ObjInterp(_Interp):
             except _Need as n:
                 if len(self.dec) >= self.max_forks:
                     raise _Unsup("too many undecided tests")
-                todo.append(dict(self.dec, **{n.key: True}))
-                todo.append(dict(self.dec, **{n.key: False}))
+                todo.append(dict(list(self.dec.items()) + [(n.key, True)]))
+                todo.append(dict(list(self.dec.items()) + [(n.key, False)]))
         return out
 
     def invoke(self, fi, pos, kw, depth, this=None):
@@ -1369,12 +1897,37 @@ class _ObjInterp(_Interp):
         return _Interp.ev(self, e, env, fi, depth)
 
     def call(self, c, env, fi, depth):
-        if any(isinstance(a, ast.Starred) for a in c.args) or any(k.arg is None for k in c.keywords):
-            raise _Unsup("star arguments in %s" % norm(c))
         f = self.ev(c.func, env, fi, depth)
+        starred = any(isinstance(a, ast.Starred) for a in c.args) or any(k.arg is None for k in c.keywords)
+        if starred and not (isinstance(f, _Tag) and f.kind in ("method", "global")):
+            raise _Unsup("star arguments in %s" % norm(c))
         if isinstance(f, _Tag) and f.kind in ("method", "global", "extacc"):
-            pos = [self.ev(a, env, fi, depth) for a in c.args]
-            kw = {k.arg: self.ev(k.value, env, fi, depth) for k in c.keywords}
+            # f(*t, **m) with t a known tuple and m a known mapping is f called with those positional and keyword arguments
+            pos, kw = [], {}
+            for a in c.args:
+                if isinstance(a, ast.Starred):
+                    v = self.ev(a.value, env, fi, depth)
+                    if not isinstance(v, tuple):
+                        raise _Unsup("* of something that is not a known tuple in %s" % norm(c))
+                    pos += list(v)
+                else:
+                    pos.append(self.ev(a, env, fi, depth))
+            for k in c.keywords:
+                v = self.ev(k.value, env, fi, depth)
+                if k.arg is None:
+                    if not isinstance(v, dict):
+                        raise _Unsup("** of something that is not a known mapping in %s" % norm(c))
+                    items = list(v.items())
+                else:
+                    items = [(k.arg, v)]
+                for kk, vv in items:
+                    if kk in kw:
+                        raise _Unsup("keyword %s given twice in %s" % (kk, norm(c)))
+                    kw[kk] = vv
+            if f.kind == "global" and f.name in ("dict", "builtins.dict") and "dict" not in env:
+                if len(pos) > 1 or (pos and not isinstance(pos[0], dict)):
+                    raise _Unsup("dict() of something that is not a known mapping in %s" % norm(c))
+                return dict(list(pos[0].items()) if pos else [], **kw)
             if f.kind == "method" and hasattr(f, "obj"):
                 return self.invoke(f.fi, pos, kw, depth + 1, this=f.obj)
             if f.kind == "extacc":
@@ -1445,6 +1998,11 @@ def object_state(chk, repo):
         return it.construct(red[0].name, list(red[1]), {}, 0)
 
     routes["pickle"] = unpickle
+    sem = {}       # (what, which of H0/h was given) -> [True / False / None per case]
+
+    def rec(what, hname, v):
+        sem.setdefault((what, hname), []).append(v)
+        return v
 
     for hname, hkw in (("H0", {"H0": H0s}), ("h", {"h": hs}), ("H0+h", {"H0": H0s, "h": hs})):
         H0_want = 100 * hs if "h" in hkw else H0s
@@ -1463,15 +2021,17 @@ def object_state(chk, repo):
             except _Unsup as e:
                 for k in keys:
                     chk.ob("R11.6", k, None, W, "the constructor / accessors use a construct outside the interpreted subset (%s)" % e)
+                for what in ("hubble-distance", "H0-accessor", "extension-arguments"):
+                    rec(what, hname, None)
                 outs = None
             if outs is not None:
                 obs = [o["value"] for o in outs]
                 dh = [x["ext"][0] for x in obs]
-                chk.ob("R11.6", keys[0], _all3(_same3(d, clight / H0_want) for d in dh), W,
+                chk.ob("R11.6", keys[0], rec("hubble-distance", hname, _all3(_same3(d, clight / H0_want) for d in dh)), W,
                        "Cosmo(%s): the extension object is built with D_H = c/H0, H0 = %s (h overrides H0) (found D_H = %s)" % (case, H0_want, dh))
-                chk.ob("R11.6", keys[1], _all3(_same3(x["H0"] * x["ext"][0] if isinstance(x["H0"], (int, float, sp.Basic)) and isinstance(x["ext"][0], (int, float, sp.Basic)) else _UNKNOWN, clight) for x in obs), W,
+                chk.ob("R11.6", keys[1], rec("H0-accessor", hname, _all3(_same3(x["H0"] * x["ext"][0] if isinstance(x["H0"], (int, float, sp.Basic)) and isinstance(x["ext"][0], (int, float, sp.Basic)) else _UNKNOWN, clight) for x in obs)), W,
                        "Cosmo(%s): H0() reports the Hubble constant the distances are computed with, H0() * D_H = c (found H0() = %s while D_H = %s)" % (case, [x["H0"] for x in obs], dh))
-                chk.ob("R11.6", keys[2], _all3(_same3(a, b) for x in obs for a, b in zip(x["ext"][1:], want)), W,
+                chk.ob("R11.6", keys[2], rec("extension-arguments", hname, _all3(_same3(a, b) for x in obs for a, b in zip(x["ext"][1:], want))), W,
                        "Cosmo(%s): the extension object gets the normalised (flat, omega_m, omega_l, omega_k) = %s (found %s)" % (case, want, [x["ext"][1:] for x in obs]))
             for rname, route in routes.items():
                 key = "state::%s-rebuilds-same-cosmology[%s]" % (rname, case)
@@ -1487,33 +2047,84 @@ def object_state(chk, repo):
                 try:
                     outs = it.explore(both)
                 except _Unsup as e:
-                    chk.ob("R11.6", key, None, W, "the code reached through %s uses a construct outside the interpreted subset (%s)" % (rname, e))
+                    chk.ob("R11.6", key, rec(rname, hname, None), W, "the code reached through %s uses a construct outside the interpreted subset (%s)" % (rname, e))
                     continue
                 if not outs or any(o["kind"] != "return" for o in outs):
-                    chk.ob("R11.6", key, None, W, "construction or %s raises on some path: %s" % (rname, [(o["kind"], o["value"]) for o in outs]))
+                    chk.ob("R11.6", key, rec(rname, hname, None), W, "construction or %s raises on some path: %s" % (rname, [(o["kind"], o["value"]) for o in outs]))
                     continue
                 res = []
                 for o in outs:
                     a, b = o["value"]
                     res += [_same3(x, y) for x, y in zip(a["ext"], b["ext"])] + [_same3(a["H0"], b["H0"])]
-                chk.ob("R11.6", key, _all3(res), W,
+                chk.ob("R11.6", key, rec(rname, hname, _all3(res)), W,
                        "Cosmo(%s): the object obtained through %s has the same H0() and builds its extension object from the same (D_H, flat, omega_m, omega_l, omega_k) (original %s, duplicate %s)"
                        % (case, rname, [o["value"][0] for o in outs], [o["value"][1] for o in outs]))
+    return sem
+
+
+def _sem(sem, whats, hnames=("H0", "h", "H0+h")):
+    """the verdict of the abstract execution of the object (object_state) on the given aspects, over all cases"""
+    vals = [v for w in whats for hn in hnames for v in (sem or {}).get((w, hn), [None])]
+    return _all3(vals) if vals else None
+
+
+def _or_sem(syntactic, sem_verdict):
+    """a rule that recognises the spelling the reviewed code has today, restated on what that spelling achieves: it holds when
+    the spelling is found; when it is not, the abstract execution of the constructor / copy routes decides (True / False / None)"""
+    return True if syntactic else sem_verdict
 
 
 def distmod(chk, repo):
+    """mu = 5 log10(D_L(0, z)[pc] / 10 pc), decided on the term the method returns: every call of a distance method of the object
+    on (0, z) is read as its value in terms of D_L(0, z) (D_M = D_L/(1+z), D_A = D_L/(1+z)^2: R11.1 Da, Dl with the dispatch of
+    R11.4), the body is evaluated symbolically and the returned term compared -- however the statements are cut"""
+    import copy as _copy
     fi = repo.func(CQ + "Cosmo.distmod")
     chk.analysed_unit(fi.qualname)
+    params = [p_ for p_ in fi.params if p_ != "self"]
+    z, DL = sp.Symbol("z"), sp.Symbol("DL", positive=True)
+    values = {"Dl": DL, "Dm": DL / (1 + z), "Da": DL / (1 + z) ** 2}
+    calls, odd = [], []
+    zname = params[0] if len(params) == 1 else None
+    rebound = zname is None or any(isinstance(n, ast.Name) and n.id == zname and isinstance(n.ctx, (ast.Store, ast.Del)) for n in ast.walk(fi.node))
+
+    class Sub(ast.NodeTransformer):
+        def visit_Call(self, c):
+            f = c.func
+            if isinstance(f, ast.Attribute) and isinstance(f.value, ast.Name) and f.value.id == "self" and f.attr in ("Dc", "Dm", "Da", "Dl"):
+                a = list(c.args) + [None, None]
+                kw = {k.arg: k.value for k in c.keywords}
+                lo, hi = kw.get("zmin", a[0]), kw.get("zmax", a[1])
+                zero = isinstance(lo, ast.Constant) and isinstance(lo.value, (int, float)) and not isinstance(lo.value, bool) and lo.value == 0
+                if f.attr in values and zero and isinstance(hi, ast.Name) and hi.id == zname and len(c.args) + len(c.keywords) == 2:
+                    calls.append(f.attr)
+                    return ast.copy_location(ast.Name(id="__%s__" % f.attr, ctx=ast.Load()), c)
+                odd.append(norm(c))
+                return c
+            return self.generic_visit(c)
+
+    body = [Sub().visit(_copy.deepcopy(st)) for st in fi.node.body]
+    if rebound or not (calls or odd):
+        chk.ob("R11.7", "distmod::luminosity-distance-from-zero", None, fi.where(), "no call of a distance method of the object on (0, z) with z the method's own argument was found")
+        chk.ob("R11.7", "distmod::formula", None, fi.where(), "the distance the modulus is formed from was not identified")
+        return
+    chk.ob("R11.7", "distmod::luminosity-distance-from-zero", not odd, fi.where(), "the distance is taken from 0 to z (distance calls on other arguments: %s)" % odd)
+    if odd:
+        chk.ob("R11.7", "distmod::formula", None, fi.where(), "the distance the modulus is formed from is not D(0, z)")
+        return
     se = symx.SymEval(repo, opaque_tests=False)
-    z = sp.Symbol("z")
-    env = symx.Env(se, fi, fi.module, {"z": z}, {})
+    env = symx.Env(se, fi, fi.module, {zname: z}, {})
     env.vars["self"] = symx.Opaque("self")
-    DL = sp.Symbol("DL")
-    stmts = [s for s in fi.node.body if isinstance(s, ast.Assign) and norm(s.targets[0]) != "dmpc"]
-    first = [s for s in fi.node.body if isinstance(s, ast.Assign) and norm(s.targets[0]) == "dmpc"]
-    chk.ob("R11.7", "distmod::luminosity-distance-from-zero", len(first) == 1 and norm(first[0].value) == "self.Dl(0.0, z)", fi.where(), "uses D_L(0, z) in Mpc")
-    env.vars["dmpc"] = DL
-    env.exec_body(stmts, sp.true)
-    got = env.vars.get("dm")
-    ok = got is not None and symx.equal(got, 5 * sp.log(DL * 10 ** 6 / 10, 10))[0]
-    chk.ob("R11.7", "distmod::formula", bool(ok), fi.where(), "mu = 5 log10(D_L[pc]/10 pc) (found %s)" % got)
+    for m, v in values.items():
+        env.vars["__%s__" % m] = v
+    try:
+        env.finish_returns(env.exec_body(body, sp.true))
+        got = env.result
+    except AnalysisError as e:
+        chk.ob("R11.7", "distmod::formula", None, fi.where(), "the body of distmod is outside the subset that is evaluated symbolically (%s)" % e)
+        return
+    if not isinstance(got, sp.Basic):
+        chk.ob("R11.7", "distmod::formula", None, fi.where(), "distmod does not return a term (%s)" % (got,))
+        return
+    ok = symx.equal(got, 5 * sp.log(DL * 10 ** 6 / 10, 10))[0]
+    chk.ob("R11.7", "distmod::formula", bool(ok), fi.where(), "mu = 5 log10(D_L[pc]/10 pc) with D_L = D_L(0, z) in Mpc (found %s)" % got)
